@@ -30,7 +30,13 @@ uninterp spec fn span_text(src: &'static str, s: Span) -> Seq<char>;
 
 spec fn is_reg(t: Token) -> bool { t.kind is Reg }
 spec fn reg_of(t: Token) -> Register { t.kind->Reg_0 }
-spec fn num_ok(t: Token, bits: Bits) -> bool { litval(t.kind) matches Some(v) && fits(bits, v) }
+/// the literal's text contains a minus sign (text -> token is the lexer's business: uninterpreted)
+uninterp spec fn tok_has_minus(t: Token) -> bool;
+/// a decimal the lexer stored wrapped into i16 (written as 32768..65535, no sign): it fits no signed field (F28)
+spec fn dec_wrapped(t: Token) -> bool { t.kind matches TokenKind::Lit(LiteralKind::Dec(v)) && v < 0 && !tok_has_minus(t) }
+spec fn num_ok(t: Token, bits: Bits) -> bool {
+    litval(t.kind) matches Some(v) && fits(bits, v) && !(bits is Signed && dec_wrapped(t))
+}
 spec fn num_of(t: Token) -> u16 { litval(t.kind)->Some_0 }
 spec fn low8(v: u16) -> u8 { (v as int % 256) as u8 }
 spec fn immreg_of(t: Token) -> ImmediateOrReg {
